@@ -38,6 +38,14 @@ struct ProofOfValue {
     commitment: CL03Commitment,
 }
 
+/// The part of a commitment a proof may carry: its value, never its opening.
+fn public_part(c: &CL03Commitment) -> CL03Commitment {
+    CL03Commitment {
+        value: c.value.clone(),
+        randomness: Integer::from(0),
+    }
+}
+
 #[derive(Clone, PartialEq, Eq, Debug, Serialize, Deserialize)]
 pub struct CL03PoKSignature {
     spok: NISPSignaturePoK,
@@ -63,7 +71,7 @@ impl<CS: CLCiphersuite> PoKSignature<CL03<CS>> {
         let min_x = Integer::from(0);
         let max_x = Integer::from(2).pow(CS::lm) - 1;
 
-        let spok = NISPSignaturePoK::nisp5_MultiAttr_generate_proof::<CS>(
+        let mut spok = NISPSignaturePoK::nisp5_MultiAttr_generate_proof::<CS>(
             signature,
             commitment_pk,
             signer_pk,
@@ -110,7 +118,7 @@ impl<CS: CLCiphersuite> PoKSignature<CL03<CS>> {
             );
             proofs_mi.push(ProofOfValue {
                 value: proof_mi_ri,
-                commitment: cmi.clone(),
+                commitment: public_part(&cmi),
             });
             let r_proof_mi = match CS::RANGEPROOF_ALG {
                 RangeProof::Boudot2000 => Boudot2000RangeProof::prove::<CS::HashAlg>(
@@ -126,6 +134,11 @@ impl<CS: CLCiphersuite> PoKSignature<CL03<CS>> {
 
             r_proofs_mi.push(r_proof_mi);
         }
+
+        spok.Cx = public_part(&spok.Cx);
+        spok.Cv = public_part(&spok.Cv);
+        spok.Cw = public_part(&spok.Cw);
+        spok.Ce = public_part(&spok.Ce);
 
         Self::CL03(CL03PoKSignature {
             spok,
@@ -306,7 +319,7 @@ impl<CS: CLCiphersuite> ZKPoK<CL03<CS>> {
             );
             proofs_mi.push(ProofOfValue {
                 value: proof_mi,
-                commitment: cmi.clone(),
+                commitment: public_part(&cmi),
             });
             match CS::RANGEPROOF_ALG {
                 RangeProof::Boudot2000 => {
@@ -337,7 +350,7 @@ impl<CS: CLCiphersuite> ZKPoK<CL03<CS>> {
                 &signer_pk.b,
                 &signer_pk.N,
             ),
-            commitment: cr.cl03Commitment().to_owned(),
+            commitment: public_part(cr.cl03Commitment()),
         };
 
         let rproof_r = match CS::RANGEPROOF_ALG {
